@@ -284,4 +284,212 @@ theorem admissible_split (eqs : List (Equation K)) (plan : Plan) (pre post : Lis
 
 end steps
 
+/-! ### admissible schedules: the Prop, the executable decision, the two execution orders -/
+
+section orders
+variable {β : Type}
+
+theorem Expr.reads_eq_map_tokens (e : Expr β) (t : Int) :
+    e.reads t = e.tokens.map (fun p => (p.1, t + p.2)) := by
+  induction e with
+  | const c => rfl
+  | var r s => rfl
+  | neg a ih => simpa [Expr.reads, Expr.tokens] using ih
+  | add a b iha ihb => simp [Expr.reads, Expr.tokens, iha, ihb]
+  | sub a b iha ihb => simp [Expr.reads, Expr.tokens, iha, ihb]
+  | mul a b iha ihb => simp [Expr.reads, Expr.tokens, iha, ihb]
+  | div a b iha ihb => simp [Expr.reads, Expr.tokens, iha, ihb]
+  | fn k a ih => simpa [Expr.reads, Expr.tokens] using ih
+
+theorem Equation.depsNoRes_eq_map (eq : Equation β) (t : Int) :
+    eq.depsNoRes t = eq.depNoResTokens.map (fun p => (p.1, t + p.2)) := by
+  unfold Equation.depsNoRes Equation.depNoResTokens Equation.lagCells
+  rw [Expr.reads_eq_map_tokens]
+  cases eq.tr.lagShift <;> simp
+
+theorem Equation.deps_eq_map (eq : Equation β) (t : Int) :
+    eq.deps t = eq.depTokens.map (fun p => (p.1, t + p.2)) := by
+  have h := eq.depsNoRes_eq_map t
+  unfold Equation.depsNoRes at h
+  unfold Equation.deps Equation.depTokens
+  rw [h]
+  by_cases hi : eq.identity <;> simp [hi]
+
+
+/-- step `s'` (run after `s`) writes nothing that the equation of `s` reads or that `s` wrote -/
+def NoClobber (eqs : List (Equation β)) (plan : Plan) (s s' : Int × Nat) : Prop :=
+  ∀ c ∈ stepWrites eqs plan s', c ∉ stepDeps eqs s ∧ c ∉ stepWrites eqs plan s
+
+/-- **Admissible schedule** (the property's "that order computes every value before it is read"): no step writes a cell its
+own equation reads, and for every pair of steps `s` before `s'`, `s'` writes nothing that `s` read or wrote.  Hence every cell
+an equation reads is either never written (an input cell) or was written by an earlier step only, and no cell is written
+twice. -/
+def Admissible (eqs : List (Equation β)) (plan : Plan) (sched : List (Int × Nat)) : Prop :=
+  (∀ s ∈ sched, selfOK eqs s = true) ∧ sched.Pairwise (NoClobber eqs plan)
+
+theorem laterOK_iff (eqs : List (Equation β)) (plan : Plan) (s : Int × Nat) (rest : List (Int × Nat)) :
+    laterOK eqs plan s rest = true ↔ ∀ s' ∈ rest, NoClobber eqs plan s s' := by
+  simp [laterOK, NoClobber, List.all_eq_true]
+
+/-- the executable decision `admissible` is exactly `Admissible` -/
+theorem admissible_iff (eqs : List (Equation β)) (plan : Plan) (sched : List (Int × Nat)) :
+    admissible eqs plan sched = true ↔ Admissible eqs plan sched := by
+  induction sched with
+  | nil => simp [admissible, Admissible]
+  | cons s rest ih =>
+    simp only [admissible, stepOK, Bool.and_eq_true, ih, Admissible, List.mem_cons, forall_eq_or_imp,
+      List.pairwise_cons, laterOK_iff]
+    constructor
+    · rintro ⟨⟨h1, h2⟩, h3, h4⟩; exact ⟨⟨h1, h3⟩, h2, h4⟩
+    · rintro ⟨⟨h1, h3⟩, h2, h4⟩; exact ⟨⟨h1, h2⟩, h3, h4⟩
+
+/-- the flag the driver prints for the step at position `pre.length` is `stepOK` of that step w.r.t. the steps after it -/
+theorem admissibleFlags_getElem (eqs : List (Equation β)) (plan : Plan) (pre post : List (Int × Nat)) (s : Int × Nat) :
+    (admissibleFlags eqs plan (pre ++ s :: post))[pre.length]? = some (stepOK eqs plan s post) := by
+  induction pre with
+  | nil => simp [admissibleFlags]
+  | cons a pre ih => simpa [admissibleFlags] using ih
+
+theorem admissibleFlags_length (eqs : List (Equation β)) (plan : Plan) (sched : List (Int × Nat)) :
+    (admissibleFlags eqs plan sched).length = sched.length := by
+  induction sched with
+  | nil => rfl
+  | cons s rest ih => simp [admissibleFlags, ih]
+
+/-- all flags true ⇔ the schedule is `Admissible` -/
+theorem admissibleFlags_all_iff (eqs : List (Equation β)) (plan : Plan) (sched : List (Int × Nat)) :
+    (∀ b ∈ admissibleFlags eqs plan sched, b = true) ↔ Admissible eqs plan sched := by
+  rw [← admissible_iff]
+  induction sched with
+  | nil => simp [admissibleFlags, admissible]
+  | cons s rest ih =>
+    simp only [admissibleFlags, admissible, List.mem_cons, forall_eq_or_imp, Bool.and_eq_true, ih]
+
+
+theorem stepWrites_mem (eqs : List (Equation β)) (plan : Plan) (s : Int × Nat) (c : Cell)
+    (h : c ∈ stepWrites eqs plan s) : ∃ eq, eqs[s.2]? = some eq ∧ c.2 = s.1 ∧ c.1 ∈ eq.writeRows := by
+  unfold stepWrites at h
+  cases heq : eqs[s.2]? with
+  | none => simp [heq] at h
+  | some eq =>
+    refine ⟨eq, rfl, ?_⟩
+    simp only [heq, List.mem_cons] at h
+    rcases h with rfl | h
+    · simp [Equation.writeRows]
+    · by_cases hi : eq.identity
+      · simp [hi] at h
+      · by_cases hp : (plan eq.lhs s.1).isSome <;> simp [hi, hp] at h
+        subst h
+        simp [Equation.writeRows, hi]
+
+/-- the step for equation `j` at column `t'` does not clobber the step for equation `i` at column `t`, provided no token of
+equation `i` points from `t` to a row that `j` writes at `t'`, and the two steps are not two different equations at one column
+writing a common row -/
+theorem noClobber_of (eqs : List (Equation β)) (plan : Plan) (i j : Nat) (t t' : Int)
+    (hW : DistinctWrites eqs)
+    (hC : ∀ ei ej, eqs[i]? = some ei → eqs[j]? = some ej → ∀ tok ∈ ei.depTokens, tok.1 ∈ ej.writeRows →
+      t + tok.2 ≠ t')
+    (hne : t = t' → i ≠ j) : NoClobber eqs plan (t, i) (t', j) := by
+  intro c hc
+  obtain ⟨ej, hej, hc2, hc1⟩ := stepWrites_mem eqs plan (t', j) c hc
+  simp only at hej hc2
+  constructor
+  · intro hd
+    unfold stepDeps at hd
+    cases hei : eqs[i]? with
+    | none => simp [hei] at hd
+    | some ei =>
+      simp only [hei, Equation.deps_eq_map, List.mem_map] at hd
+      obtain ⟨tok, htok, rfl⟩ := hd
+      exact hC ei ej hei hej tok htok hc1 hc2
+  · intro hw
+    obtain ⟨ei, hei, hw2, hw1⟩ := stepWrites_mem eqs plan (t, i) c hw
+    simp only at hei hw2
+    have hij := hne (hw2.symm.trans hc2)
+    exact hW (ei, i) (List.mem_zipIdx_iff_getElem?.mpr hei) (ej, j) (List.mem_zipIdx_iff_getElem?.mpr hej) hij _ hw1 hc1
+
+/-- the static `SelfOKText` gives `selfOK` at every column -/
+theorem selfOK_of_text (eqs : List (Equation β)) (s : Int × Nat) (h : AllSelfOK eqs) : selfOK eqs s = true := by
+  unfold selfOK
+  cases heq : eqs[s.2]? with
+  | none => rfl
+  | some eq =>
+    obtain ⟨h1, h2⟩ := h eq (List.mem_of_getElem? heq)
+    have key : ∀ (l : List (Nat × Int)) (r : Nat), (r, s.1) ∈ l.map (fun p => (p.1, s.1 + p.2)) → (r, (0 : Int)) ∈ l := by
+      intro l r hm
+      obtain ⟨tok, htok, he⟩ := List.mem_map.mp hm
+      have h1 : tok.1 = r := (Prod.mk.injEq _ _ _ _ ▸ he).1
+      have h2 : s.1 + tok.2 = s.1 := (Prod.mk.injEq _ _ _ _ ▸ he).2
+      have : tok = (r, 0) := Prod.ext h1 (by simp only; omega)
+      rw [← this]; exact htok
+    have hA : (eq.deps s.1).contains (eq.lhs, s.1) = false := by
+      rw [Bool.eq_false_iff]
+      intro hc
+      exact h1 (key _ _ (by simpa [Equation.deps_eq_map] using hc))
+    show (!(eq.deps s.1).contains (eq.lhs, s.1) &&
+        (eq.identity || !(eq.depsNoRes s.1).contains (eq.res, s.1) && !(eq.res, s.1) == (eq.lhs, s.1))) = true
+    rw [hA]
+    rcases h2 with h2 | ⟨h2, h3⟩
+    · simp [h2]
+    · have hB : (eq.depsNoRes s.1).contains (eq.res, s.1) = false := by
+        rw [Bool.eq_false_iff]
+        intro hc
+        exact h2 (key _ _ (by simpa [Equation.depsNoRes_eq_map] using hc))
+      have hC : ((eq.res, s.1) == (eq.lhs, s.1)) = false := by
+        rw [Bool.eq_false_iff]
+        intro hc
+        exact h3 (by simpa using hc)
+      rw [hB, hC]; simp
+
+
+theorem mem_datesEquations (cols : List Int) (n : Nat) (s : Int × Nat) :
+    s ∈ datesEquations cols n ↔ s.1 ∈ cols ∧ s.2 < n := by
+  simp only [datesEquations, List.mem_flatMap, List.mem_map, List.mem_range]
+  constructor
+  · rintro ⟨t, ht, i, hi, rfl⟩; exact ⟨ht, hi⟩
+  · rintro ⟨ht, hi⟩; exact ⟨s.1, ht, s.2, hi, rfl⟩
+
+theorem mem_equationsDates (cols : List Int) (n : Nat) (s : Int × Nat) :
+    s ∈ equationsDates cols n ↔ s.1 ∈ cols ∧ s.2 < n := by
+  simp only [equationsDates, List.mem_flatMap, List.mem_map, List.mem_range]
+  constructor
+  · rintro ⟨i, hi, t, ht, rfl⟩; exact ⟨ht, hi⟩
+  · rintro ⟨ht, hi⟩; exact ⟨s.2, hi, s.1, ht, rfl⟩
+
+/-- `dates_equations` runs the steps in lexicographic order of (column, equation) -/
+theorem pairwise_datesEquations (R : Int × Nat → Int × Nat → Prop) (cols : List Int) (n : Nat)
+    (hcols : cols.Pairwise (· < ·))
+    (h : ∀ t ∈ cols, ∀ t' ∈ cols, ∀ i j, i < n → j < n → (t < t' ∨ (t = t' ∧ i < j)) → R (t, i) (t', j)) :
+    (datesEquations cols n).Pairwise R := by
+  unfold datesEquations
+  rw [List.pairwise_flatMap]
+  constructor
+  · intro t ht
+    rw [List.pairwise_map]
+    exact List.pairwise_lt_range.imp_of_mem (fun {i j} hi hj hij =>
+      h t ht t ht i j (List.mem_range.mp hi) (List.mem_range.mp hj) (Or.inr ⟨rfl, hij⟩))
+  · refine hcols.imp_of_mem (fun {t t'} ht ht' htt x hx y hy => ?_)
+    obtain ⟨i, hi, rfl⟩ := List.mem_map.mp hx
+    obtain ⟨j, hj, rfl⟩ := List.mem_map.mp hy
+    exact h t ht t' ht' i j (List.mem_range.mp hi) (List.mem_range.mp hj) (Or.inl htt)
+
+/-- `equations_dates` runs the steps in lexicographic order of (equation, column) -/
+theorem pairwise_equationsDates (R : Int × Nat → Int × Nat → Prop) (cols : List Int) (n : Nat)
+    (hcols : cols.Pairwise (· < ·))
+    (h : ∀ t ∈ cols, ∀ t' ∈ cols, ∀ i j, i < n → j < n → (i < j ∨ (i = j ∧ t < t')) → R (t, i) (t', j)) :
+    (equationsDates cols n).Pairwise R := by
+  unfold equationsDates
+  rw [List.pairwise_flatMap]
+  constructor
+  · intro i hi
+    rw [List.pairwise_map]
+    exact hcols.imp_of_mem (fun {t t'} ht ht' htt =>
+      h t ht t' ht' i i (List.mem_range.mp hi) (List.mem_range.mp hi) (Or.inr ⟨rfl, htt⟩))
+  · refine List.pairwise_lt_range.imp_of_mem (fun {i j} hi hj hij x hx y hy => ?_)
+    obtain ⟨t, ht, rfl⟩ := List.mem_map.mp hx
+    obtain ⟨t', ht', rfl⟩ := List.mem_map.mp hy
+    exact h t ht t' ht' i j (List.mem_range.mp hi) (List.mem_range.mp hj) (Or.inl hij)
+
+end orders
+
 end IrisVerif.Seq
